@@ -158,12 +158,29 @@ Lemma xml_sound_main : forall L C U,
          | None => true
          | Some key => match reg_find (p_reg C) key with
                        | None => true
-                       | Some t' => negb (xsi_guard U t t')
+                       | Some t' => match xsi_target U (p_tns C) t t' with None => true | Some _ => false end
                        end
          end = true) ->
         pdec shape_ok L C U (S k) sc t nillable (XElt ns n atts txt kids) = VFault).
 Proof.
   intros L C U. split; [exact (decoded_class L C U)|]. split; [exact (marker_honoured L C U)|exact (marker_refused L C U)].
+Qed.
+
+(** what _get_xsi_target lets through, for every pair of modelled types: the declared type itself
+    (same class; for Array types only under the same namespace and type name; the declared
+    customisation is kept), or a user class that is a subclass of the declared user class;
+    in particular a primitive or an array slot is never retyped *)
+Lemma xsi_target_main : forall U tns decl new t, xsi_target U tns decl new = Some t ->
+  (t = decl \/ exists c c', decl = TRef c /\ new = TRef c' /\ t = TRef c' /\ is_subclass U c' c = true)
+  /\ (forall p, decl = TPrim p -> new = TPrim p /\ t = decl)
+  /\ (forall e, decl = TArr e -> exists e', new = TArr e' /\ key_of U tns (TArr e') = key_of U tns (TArr e) /\ t = decl).
+Proof.
+  intros U tns decl new t H. split; [exact (xsi_target_spec U tns decl new t H)|]. split.
+  - intros p ->. unfold xsi_target, xsi_decide in H. destruct new as [q|c'|e']; cbn [negb andb orb] in H; try discriminate.
+    destruct p, q; cbn in H; try discriminate; inversion H; split; reflexivity.
+  - intros e ->. unfold xsi_target, xsi_decide in H. destruct new as [q|c'|e']; cbn [negb andb orb] in H; try discriminate.
+    destruct (rkey_eqb (key_of U tns (TArr e)) (key_of U tns (TArr e'))) eqn:E; cbn [negb andb] in H; [|discriminate].
+    inversion H. exists e'. split; [reflexivity|]. split; [|reflexivity]. symmetry. apply rkey_eqb_eq. exact E.
 Qed.
 
 (* ------------------------------------------------------------------ dict documents *)
